@@ -346,7 +346,9 @@ def run_lines(exe, lines, timeout=120, env=None, args=()):
     while i < len(lines):
         data = ("\n".join(lines[i:]) + "\n").encode()
         try:
-            r = subprocess.run([exe] + list(args), input=data, capture_output=True, timeout=timeout, env=env or RUN_ENV)
+            # (the budget is for one case; a batch gets a proportional allowance on top, so that a long batch of
+            #  quick cases is not cut short and the case in progress blamed for it)
+            r = subprocess.run([exe] + list(args), input=data, capture_output=True, timeout=timeout + 0.25 * (len(lines) - i), env=env or RUN_ENV)
             got = r.stdout.decode("latin-1").split("\n")
             if got and got[-1] == "":
                 got.pop()
